@@ -9,7 +9,8 @@ RULE = ("each case runs propka.run.single on a structure (repository proteins, c
         "records (folded <- predicted pKa, unfolded <- model pKa); contract on every "
         "Group.calculate_charge call. Non-trivial: the structure has >= 2 titratable groups whose "
         "predicted pKa differs from the model pKa by > 0.05, and at least one pI with a sign change in "
-        "the window was checked; distinct = distinct (structure digest, grid).")
+        "the window was checked; distinct = distinct (structure digest, grid)."
+        " 30 % of the cut-outs carry 1-3 ligands / nucleotides (groups of one type with different model pKa values).")
 ASSUMPTIONS = ["the total charge is strictly decreasing in pH, so the root in a window is unique",
                "pI tolerance = precision*(1+1e-6)+1e-9; text tolerance 0.005"]
 TIMEOUT = {"quick": 1800, "thorough": 10800}
